@@ -82,6 +82,13 @@ func (c07Driver) Gen(r *Rand, tier string) []json.RawMessage {
 				res = append(res, mustJSON(c07Input{Sit: s, Mut: m, Kind: "bug", Salt: r.Intn(1000)}))
 			}
 		}
+		for _, m := range bm {
+			if strings.HasPrefix(m, "ref-") || strings.HasPrefix(m, "root-") || m == "first-op-not-create" {
+				continue
+			}
+			// the same corrupt commit found under a LOCAL ref: reading must report an error, not crash
+			res = append(res, mustJSON(c07Input{Sit: "equal", Mut: m, Kind: "localbug", Salt: r.Intn(1000)}))
+		}
 		for _, m := range im {
 			for _, s := range []string{"absent", "equal", "ahead"} {
 				res = append(res, mustJSON(c07Input{Sit: s, Mut: m, Kind: "identity", Salt: r.Intn(1000)}))
@@ -180,7 +187,7 @@ func (c07Driver) Run(raw json.RawMessage) Case {
 	var targetID entity.Id
 	trackRef := ""
 	legitRef := ""
-	if in.Kind == "bug" {
+	if in.Kind == "bug" || in.Kind == "localbug" {
 		t, _, err := bug.Create(alice, 1600000100, "target bug", "target message", nil, nil)
 		must(err, "target")
 		must(t.Commit(repoA), "target commit")
@@ -251,7 +258,7 @@ func (c07Driver) Run(raw json.RawMessage) Case {
 		must(err, "store commit")
 		return ch
 	}
-	if in.Kind == "bug" {
+	if in.Kind == "bug" || in.Kind == "localbug" {
 		_, parentInfo, _ := readCommitRaw(repoB, base)
 		_ = parentInfo
 		pc, _, _ := readCommitRaw(repoB, base)
@@ -440,6 +447,9 @@ func (c07Driver) Run(raw json.RawMessage) Case {
 		if in.Mut == "ref-to-blob" || in.Mut == "ref-to-tree" {
 			// go-git refuses nothing here: a ref is just a name and a hash
 		}
+		if in.Kind == "localbug" {
+			ref = "refs/bugs/" + string(targetID)
+		}
 		must(repoB.UpdateRef(ref, tip), "update tracking ref")
 	} else {
 		commits := refCommits(repoB, trackRef)
@@ -524,6 +534,42 @@ func (c07Driver) Run(raw json.RawMessage) Case {
 		} else {
 			obs.Others = append(obs.Others, st)
 		}
+	}
+	if in.Kind == "localbug" {
+		// corrupt data already stored locally: Read and ReadAll must answer with an error or the entity
+		obs.RefsAfter = obs.RefsBefore
+		rb, err1 := bug.Read(repoB, targetID)
+		var err2 error
+		for se := range bug.ReadAll(repoB) {
+			if se.Err != nil {
+				err2 = se.Err
+			}
+		}
+		obs.Status = "updated"
+		if err1 != nil {
+			obs.Status, obs.Reason = "invalid", err1.Error()
+		}
+		obs.Readable = true
+		if (err1 == nil) != (err2 == nil) {
+			obs.Readable, obs.ReadErr = false, "Read and ReadAll disagree on the corrupt bug"
+		}
+		expectInvalid := c07BugMuts[in.Mut]
+		switch in.Mut {
+		case "dup-op", "empty-title", "second-create":
+			// semantic rules are Validate()'s business: Read decodes, Validate must report them
+			expectInvalid = false
+			if err1 == nil && rb.Validate() == nil {
+				obs.Readable, obs.ReadErr = false, "corrupt local bug passes Validate"
+			}
+		}
+		st := map[string]string{"updated": "SUpdated", "invalid": "SInvalid"}[obs.Status]
+		var es []string
+		for _, n := range obs.TipEntries {
+			es = append(es, fmt.Sprintf("(%s, false)", coqRunes(n)))
+		}
+		term := fmt.Sprintf("mkcase7 %s %s true %s true %s %s", coqBool(expectInvalid), st, coqBool(obs.Readable), coqBool(len(obs.TipEntries) > 0), coqList(es))
+		tags := []string{"kind:" + in.Kind, "mut:" + in.Mut, "status:" + obs.Status}
+		return Case{Coq: term, Obs: obs, Tags: tags, NonTrivial: in.Mut != "none", Key: fmt.Sprintf("%s/%s/%s", in.Kind, in.Sit, in.Mut)}
 	}
 	if in.Kind == "bug" {
 		for mr := range bug.MergeAll(repoB, resolversB, "origin", victimB) {
